@@ -491,10 +491,11 @@ fn c12_next_factor_exact_ref_u16() {
     w16::next_factor_exact(2);
 }
 
-//@ prop=C12 tier=quick kind=hold
+//@ prop=C12 tier=thorough kind=hold
 //@ enc=UpdateFundingState::{execute,next_funding_amount_per_size,next_funding_factor_per_second,set_deltas}, pack_to_funding_amount_per_size, PerpMarketMutExt::{update_funding,apply_delta_to_funding_amount_per_size,apply_delta_to_claimable_funding_amount_per_size}, Prices::validate
 //@ bound=width-reduced T=u8, DECIMALS=1: every u8 open-interest pool, funding index pool, funding parameter, price (validity decided by the code), i8 stored factor, u64 elapsed time; funding adjustment fixed to 1 (a program constant); exponent 1*UNIT; one execution from an arbitrary state (P2 step)
 //@ stubs=market environment = plain-struct VMarket; the funding clock is the field passed_funding
+//@ timeout=5400 mem=30
 #[kani::proof]
 #[kani::unwind(5)]
 fn c12_execute_indices_only_grow_u8() {
@@ -540,13 +541,3 @@ fn c12_pending_funding_fees_any_adjustment_u16() {
     w16::pending_funding_fees(None);
 }
 
-#[kani::proof]
-#[kani::unwind(5)]
-fn probe_c12_exec_nonadaptive() {
-    w8::execute_indices_only_grow_mode(Some(1), Some(false));
-}
-#[kani::proof]
-#[kani::unwind(5)]
-fn probe_c12_exec_adaptive() {
-    w8::execute_indices_only_grow_mode(Some(1), Some(true));
-}
